@@ -20,6 +20,9 @@ def state(o, unsup=False):
             list(o.subgraph.idx_nodes))
 
 
+BOOST = int(os.environ.get("VERIF_BOOST", "1"))
+
+
 def run(rng, tier, res=None):
     load_opfython()
     import opfython.math.distance as dist
@@ -30,7 +33,7 @@ def run(rng, tier, res=None):
     from opfython.models.unsupervised import UnsupervisedOPF
     res = res or Result("precomp")
     names = sorted(dist.DISTANCES)
-    ncases = 30 if tier == "quick" else 3 * len(names)
+    ncases = (30 * BOOST) if tier == "quick" else 3 * len(names)
     tmp = tempfile.mkdtemp(prefix="opfverif-precomp-")
 
     def viol(msgs, meta):
